@@ -4,6 +4,8 @@ import itertools
 import time
 from types import SimpleNamespace
 
+from fractions import Fraction
+
 import numpy as np
 import z3
 
@@ -19,14 +21,16 @@ META = dict(
     level="other",
     stubs=["uset['nasset'].values -> object array of symbolic 32-bit vectors (stub table)",
            ".astype(np.int64) on symbolic integer arrays -> identity (AST hook, n2p.mkdofpv / expanddof / make_uset)",
+           "mat_intersect: inputs are object arrays reporting an element type (int64 / float64) as dtype; locate._bytes_view(arr, dtype) -> one totally ordered row key per row "
+           "after conversion to dtype (float -> integer truncates toward zero), equality = equality of every converted value",
            "make_uset: pandas itself, except that the new table's nasset column is created with dtype object so that it can hold the symbolic set words"],
     bounds=dict(quick="lattice: all 8 base sets x 6 free user bits (one BV query per set expression); mksetpv: 2-3 rows x 66 (major, minor) pairs; "
                       "mkdofpv: 3 table rows x 2 requests, ids in [1,4]; locate helpers: vectors of 3-4 symbolic ints in small ranges",
                 thorough="mksetpv 3 rows x all pairs; mkdofpv 4 rows x 2 requests / 3 x 3; locate vectors up to 5"),
-    outside=["make_uset's coordinate columns and string set names; DataFrame-indexed paths of mkdofpv (pandas index machinery)", "mat_intersect (void-dtype byte views)",
+    outside=["make_uset's coordinate columns and string set names; DataFrame-indexed paths of mkdofpv (pandas index machinery)", "mat_intersect on -0.0 / NaN (byte patterns) and its keep option",
              "find_subseq (np.correlate)"],
     assumptions=["a USET row's set word is one base-set mask of mkusetmask() plus arbitrary user-set bits (what make_uset / the op2 reader store after clearing)"],
-    reach_required=["make-uset", "lattice", "mksetpv-raise", "mksetpv-ok", "mkdofpv-missing", "mkdofpv-found", "expand-123456", "locate"],
+    reach_required=["mat-intersect", "mat-intersect-mixed", "make-uset", "lattice", "mksetpv-raise", "mksetpv-ok", "mkdofpv-missing", "mkdofpv-found", "expand-123456", "locate"],
 )
 
 BASE = ["m", "s", "o", "q", "r", "c", "b", "e"]
@@ -351,6 +355,164 @@ def locate_fn(which, n):
     return fn
 
 
+# ---------------------------------------------------------------------------
+# locate.mat_intersect: typed symbolic matrices; the byte-string row view becomes a totally ordered row key
+
+class TArr(np.ndarray):
+    """object array that reports an element type ('int64' / 'float64') as its dtype"""
+    _dt = "float64"
+
+    def __array_finalize__(self, obj):
+        if obj is not None:
+            self._dt = getattr(obj, "_dt", "float64")
+
+    @property
+    def dtype(self):
+        return np.dtype(self._dt)
+
+
+def _tarr(vals, dt):
+    a = np.empty((len(vals), len(vals[0])), dtype=object)
+    for i, row in enumerate(vals):
+        for j, v in enumerate(row):
+            a[i, j] = v
+    t = a.view(TArr)
+    t._dt = dt
+    return t
+
+
+class RowKey:
+    """one row as the byte string would order it: a total order (lexicographic on the converted values here; the algorithm only
+    needs sort and search to agree) whose equality is equality of every converted value"""
+    __slots__ = ("v",)
+
+    def __init__(self, v):
+        self.v = v
+
+    def _cmp(self, o):
+        eng = S.eng()
+        for a, b in zip(self.v, o.v):
+            if eng.decide(a < b):
+                return -1
+            if eng.decide(a > b):
+                return 1
+        return 0
+
+    def __lt__(self, o):
+        return self._cmp(o) < 0
+
+    def __gt__(self, o):
+        return self._cmp(o) > 0
+
+    def __le__(self, o):
+        return self._cmp(o) <= 0
+
+    def __ge__(self, o):
+        return self._cmp(o) >= 0
+
+    def __eq__(self, o):
+        return self._cmp(o) == 0
+
+    def __ne__(self, o):
+        return self._cmp(o) != 0
+
+    def __hash__(self):
+        return id(self)
+
+
+def _sx_bytes_view(arr, dtype):
+    """np.ascontiguousarray(arr, dtype) followed by the byte view: float -> integer conversion truncates toward zero"""
+    kind_to = np.dtype(dtype).kind
+    kind_from = np.dtype(getattr(arr, "_dt", "float64")).kind
+    a = np.asarray(arr)
+    out = np.empty((a.shape[0], 1), dtype=object)
+    for i in range(a.shape[0]):
+        vals = []
+        for x in a[i]:
+            e = S.lift(x)
+            if kind_to in "iu" and kind_from == "f":
+                e = z3.If(e >= 0, z3.ToReal(z3.ToInt(e)), -z3.ToReal(z3.ToInt(-e)))
+            elif e.sort() == z3.IntSort():
+                e = z3.ToReal(e)
+            vals.append(e)
+        out[i, 0] = RowKey(vals)
+    return out
+
+
+class NPT(NPProxy):
+    def array(self, a, dtype=None, **kw):
+        if isinstance(a, TArr):
+            return a
+        return np.array(a, dtype=dtype, **kw)
+
+
+def matint_fn(r1, r2, c, dt1, dt2):
+    def fn(eng):
+        S.set_engine(eng)
+        import pyyeti.locate as L
+        f = rebind([L.mat_intersect], dict(np=NPT(), _bytes_view=_sx_bytes_view))["mat_intersect"]
+        info = dict(r1=r1, r2=r2, c=c, dt1=dt1, dt2=dt2)
+
+        def mk(name, r, dt):
+            zs, rows = [], []
+            for i in range(r):
+                zr, rr = [], []
+                for j in range(c):
+                    if dt == "int64":
+                        z = z3.Int("%s%d_%d" % (name, i, j))
+                        eng.assume(z3.And(z >= -2, z <= 2))
+                        rr.append(S.SymI(z))
+                        zr.append(z3.ToReal(z))
+                    else:
+                        z = z3.Real("%s%d_%d" % (name, i, j))
+                        eng.assume(z3.And(z >= -2, z <= 2))
+                        rr.append(S.SymR(z))
+                        zr.append(z)
+                zs.append(zr)
+                rows.append(rr)
+            return zs, _tarr(rows, dt)
+        z1, D1 = mk("a", r1, dt1)
+        z2, D2 = mk("b", r2, dt2)
+        try:
+            pv1, pv2 = f(D1, D2)
+        except E.Inconclusive:
+            raise
+        except Exception as ex:
+            import traceback
+            return [E.Obl("mat_intersect raises %r (%s)" % (ex, traceback.format_exc()[-300:]), False, info=info)]
+        eng.tag("mat-intersect-mixed" if dt1 != dt2 else "mat-intersect")
+        pv1, pv2 = [int(x) for x in pv1], [int(x) for x in pv2]
+        same = lambda i, j: z3.And([z1[i][k] == z2[j][k] for k in range(c)])
+        obls = [E.Obl("mat_intersect: index vectors of equal length", len(pv1) == len(pv2), info=info)]
+        for i, j in zip(pv1, pv2):
+            obls.append(E.Obl("mat_intersect: D1[pv1] == D2[pv2] (row %d of D1, row %d of D2)" % (i, j), same(i, j), info=info))
+        if r1 <= r2:
+            for i in range(r1):
+                obls.append(E.Obl("mat_intersect: row %d of D1 is reported iff it occurs in D2" % i, z3.Or([same(i, j) for j in range(r2)]) == (i in pv1), info=info))
+        return obls
+    return fn
+
+
+def replay_matint(p):
+    import pyyeti.locate as L
+    a = p["args"]
+    r1, r2, c, dt1, dt2 = a
+    mdl = p["model"]
+    g = lambda k: float(Fraction(mdl.get(k, 0) or 0))
+    D1 = np.array([[g("a%d_%d" % (i, j)) for j in range(c)] for i in range(r1)]).astype(dt1)
+    D2 = np.array([[g("b%d_%d" % (i, j)) for j in range(c)] for i in range(r2)]).astype(dt2)
+    pv1, pv2 = L.mat_intersect(D1, D2)
+    bad = [(int(i), int(j)) for i, j in zip(pv1, pv2) if not np.array_equal(D1[i], D2[j])]
+    if bad:
+        return True, "mat_intersect(%s, %s) pairs rows %s: %s != %s" % (D1.tolist(), D2.tolist(), bad[0], D1[bad[0][0]].tolist(), D2[bad[0][1]].tolist())
+    if r1 <= r2:
+        for i in range(r1):
+            has = any(np.array_equal(D1[i], D2[j]) for j in range(r2))
+            if has != (i in list(pv1)):
+                return True, "mat_intersect(%s, %s): row %d of D1 %s" % (D1.tolist(), D2.tolist(), i, "is in D2 but not reported" if has else "reported but not in D2")
+    return False, "mat_intersect fine on the real code"
+
+
 def job(kind, *args, split_depth=None, roots=None):
     if kind == "lattice":
         fn = lattice_fn
@@ -370,6 +532,8 @@ def job(kind, *args, split_depth=None, roots=None):
         fn = locate_fn(*args)
     elif kind == "makeuset":
         fn = makeuset_fn(*args)
+    elif kind == "matint":
+        fn = matint_fn(*args)
     eng = E.Engine()
     res = eng.explore(fn, max_cex=3, roots=roots, split_depth=split_depth)
     res["note"] = "%s %s" % (kind, args)
@@ -622,7 +786,7 @@ def replay_makeuset(p):
     return False, "make_uset fine on the real code"
 
 
-REPLAY = {"makeuset": replay_makeuset, "lattice": replay_lattice, "mksetpv": replay_mksetpv, "mkdofpv": replay_mkdofpv, "locate": replay_locate}
+REPLAY = {"matint": replay_matint, "makeuset": replay_makeuset, "lattice": replay_lattice, "mksetpv": replay_mksetpv, "mkdofpv": replay_mkdofpv, "locate": replay_locate}
 
 
 def jobs(tier, seed):
@@ -642,6 +806,8 @@ def jobs(tier, seed):
     if not q:
         out.append(H.Job("mkdofpv-pairs-4x2", job, "mkdofpv", 4, 2, "pairs", split_depth=7, weight=300))
         out.append(H.Job("mkdofpv-pairs-3x3", job, "mkdofpv", 3, 3, "pairs", split_depth=7, weight=300))
+    for a in [(2, 2, 2, "float64", "int64"), (2, 3, 1, "int64", "float64"), (2, 2, 2, "int64", "int64")] + ([] if q else [(2, 3, 2, "float64", "int64"), (3, 3, 1, "float64", "float64")]):
+        out.append(H.Job("matint-%d-%d-%d-%s-%s" % a, job, "matint", *a, split_depth=6, weight=60))
     for which, n in (("find_vals", 3), ("find_duplicates", 3), ("find_rows", 3), ("flippv", 3), ("index2slice", 3),
                      ("find_unique", 4), ("list_intersect", 3), ("merge_lists", 3)):
         out.append(H.Job("locate-%s" % which, job, "locate", which, n, weight=20))
@@ -653,6 +819,6 @@ def jobs(tier, seed):
 def extra_coverage(results):
     import pyyeti.locate as L
     n2p = _n2p()
-    fns = [n2p.make_uset, n2p.mkusetmask, n2p.mksetpv, n2p.mkdofpv, n2p.expanddof, L.find_vals, L.find_duplicates, L.find_rows, L.index2bool,
+    fns = [L.mat_intersect, n2p.make_uset, n2p.mkusetmask, n2p.mksetpv, n2p.mkdofpv, n2p.expanddof, L.find_vals, L.find_duplicates, L.find_rows, L.index2bool,
            L.index2slice, L.flippv, L.find_unique, L.list_intersect, L.merge_lists]
     return dict(functions_encoded=[H.fn_id(f) for f in fns], ast_hook_hits={"%s:%s" % k: v for k, v in astload.HITS.items()})
